@@ -396,7 +396,7 @@ fn meta_tv(o: &mut Vec<(String, TV)>, m: &Option<toml::Table>) {
     }
 }
 
-fn component_tv(d: &ComponentBuildpackDescriptor) -> TV {
+pub fn component_tv(d: &ComponentBuildpackDescriptor) -> TV {
     let mut o = vec![("api".to_string(), TV::Str(d.api.to_string())), ("buildpack".into(), bp_tv(&d.buildpack))];
     o.push(("stacks".into(), TV::Array(d.stacks.iter().map(|s| TV::Table(vec![("id".into(), TV::Str(s.id.clone())), ("mixins".into(), strs(&s.mixins))])).collect())));
     o.push((
